@@ -21,6 +21,7 @@ import (
 	"github.com/bytom/bytom/asset"
 	"github.com/bytom/bytom/blockchain/signers"
 	"github.com/bytom/bytom/blockchain/txbuilder"
+	"github.com/bytom/bytom/consensus"
 	"github.com/bytom/bytom/contract"
 	"github.com/bytom/bytom/crypto"
 	"github.com/bytom/bytom/crypto/ed25519/chainkd"
@@ -235,8 +236,11 @@ func sortUtxos(us []*account.UTXO) {
 // spending now: the real spend-UTXO build action (utxoKeeper.ReserveParticular,
 // with its maturity test against the chain's best height).  The reservation is
 // rolled back at once.  class is "" when usable, else the refusal class.
-func (w *Wallet) Usable(id bc.Hash) (usable bool, class string) {
-	act, err := w.Mgr.DecodeSpendUTXOAction([]byte(fmt.Sprintf(`{"output_id":"%s"}`, id.String())))
+func (w *Wallet) Usable(id bc.Hash) (usable bool, class string) { return w.UsableWith(id, false) }
+
+// UsableWith is Usable with the action's use_unconfirmed flag.
+func (w *Wallet) UsableWith(id bc.Hash, useUnconfirmed bool) (usable bool, class string) {
+	act, err := w.Mgr.DecodeSpendUTXOAction([]byte(fmt.Sprintf(`{"output_id":"%s","use_unconfirmed":%v}`, id.String(), useUnconfirmed)))
 	if err != nil {
 		return false, "decode-action"
 	}
@@ -259,6 +263,40 @@ func (w *Wallet) Usable(id bc.Hash) (usable bool, class string) {
 		s = s[:40]
 	}
 	return false, "other:" + s
+}
+
+// VetoSelects asks the wallet's account-level veto action (utxoKeeper.Reserve over the vote outputs of the
+// account for that key) for amount and returns the outputs it selected; the reservation is rolled back at once.
+func (w *Wallet) VetoSelects(accountID string, vote []byte, amount uint64, useUnconfirmed bool) (ids []bc.Hash, class string) {
+	act, err := w.Mgr.DecodeVetoAction([]byte(fmt.Sprintf(`{"account_id":"%s","asset_id":"%s","amount":%d,"vote":"%x","use_unconfirmed":%v}`,
+		accountID, consensus.BTMAssetID.String(), amount, vote, useUnconfirmed)))
+	if err != nil {
+		return nil, "decode-action:" + err.Error()
+	}
+	b := txbuilder.NewBuilder(time.Now().Add(time.Hour))
+	err = act.Build(context.Background(), b)
+	if err == nil {
+		if tpl, _, berr := b.Build(); berr == nil {
+			for _, in := range tpl.Transaction.Inputs {
+				if id, err := in.SpentOutputID(); err == nil {
+					ids = append(ids, id)
+				}
+			}
+		}
+	}
+	b.Rollback()
+	if err == nil {
+		return ids, ""
+	}
+	switch errors.Root(err) {
+	case account.ErrImmature:
+		return nil, "immature"
+	case account.ErrReserved:
+		return nil, "reserved"
+	case account.ErrInsufficient:
+		return nil, "insufficient"
+	}
+	return nil, "other"
 }
 
 // Owner returns the wallet program paying prog, or nil.
